@@ -434,4 +434,7 @@ fire('tok3-double-emit', ['C01', 'C09'], ['TOK-3', 'TOK-1'], 'the NEWLINE token 
 silent('tok3-reset-order', ['C01', 'C09'], 'the reset of additional_prefix moves before the prefix computation through a temporary',
        (TOK, "                prefix = additional_prefix + pseudomatch.group(1)\n                additional_prefix = ''", "                pending = additional_prefix\n                additional_prefix = ''\n                prefix = pending + pseudomatch.group(1)"))
 
+fire('par-recovery-point-any', ['C05'], ['PAR-10'], 'the recovery point may be any stack entry with more than three nodes',
+     (PYPARSER, "                if stack_node.nonterminal == 'file_input':\n                    break", "                if stack_node.nonterminal == 'file_input' or len(stack_node.nodes) > 3:\n                    break"))
+
 VARIANTS = [v for v in VARIANTS if v is not None]
